@@ -197,8 +197,18 @@ def idct_inst(kind, w, h, bi=None):
     if kind == "dc":
         return ('    #[cfg_attr(kani, kani::proof)]\n    #[cfg_attr(kani, kani::unwind(%d))]\n'
                 '    pub fn %s() { dc_check::<%d, %d, %d, %d, %d, %d, %d>() }\n' % (max(9, bw2 * bh2 + 1), idct_name(kind, w, h, bi), w, h, w * h, bw2, bh2, bw2 * bh2, bi))
-    return ('    #[cfg_attr(kani, kani::proof)]\n    #[cfg_attr(kani, kani::unwind(%d))]\n'
-            '    pub fn %s() { contract_check::<%d, %d, %d, %d, %d, %d>() }\n' % (max(9, bw2 * bh2 + 1), idct_name(kind, w, h), w, h, w * h, bw2, bh2, bw2 * bh2))
+    return "".join('    #[cfg_attr(kani, kani::proof)]\n    #[cfg_attr(kani, kani::unwind(%d))]\n'
+                   '    pub fn %s() { contract_check::<%d, %d, %d, %d, %d, %d, %d, %d>() }\n' % (max(9, bw2 * bh2 + 1), n, w, h, w * h, bw2, bh2, bw2 * bh2, b, v)
+                   for (n, b, v) in idct_contract_instances(w, h))
+
+
+def idct_contract_instances(w, h):
+    """[(harness name, block index, variant)]: variants 1 Dc, 2 Horiz, 3 Vert, 4 Full at the block that holds the last (cropped) sample"""
+    bw2, bh2 = idct_dims(w, h)
+    last_in = ((h - 1) // 8) * bw2 + (w - 1) // 8
+    out = [("c02_idct_contract_%dx%d_b%d_v%d" % (w, h, last_in, v), last_in, v) for v in (2, 3, 4)]
+    out.append(("c02_idct_contract_%dx%d_b%d_v%d" % (w, h, bw2 * bh2 - 1, 4), bw2 * bh2 - 1, 4))
+    return sorted(set(out))
 
 
 def idct_dc_blocks(w, h):
